@@ -24,7 +24,7 @@ META = {
     "encoded": ["memory._Namespace.is_available", "memory._Namespace.assign", "memory._Namespace.extend",
                 "memory._Namespace.names", "memory.MemoryMap.Name.__new__", "memory.MemoryMap.add_resource",
                 "memory.MemoryMap.add_window", "memory.MemoryMap.all_resources"],
-    "also": "alphabet {'a','b','ab','0',0,300} (300 is not cached by CPython; concrete replays build fresh objects); the same Name object re-used; names handed back from resources(); anonymous windows nested two deep; refused windows must stay usable; anonymous windows also mapped into a second parent with names of its own; named windows nested two deep with equal leaf names; anonymous windows holding named windows; internal TypeErrors on well-formed names are violations; heavy shapes split over processes by the first part",
+    "also": "alphabet {'a','b','ab','0',0,300} (300 is not cached by CPython; concrete replays build fresh objects); the same Name object re-used; names handed back from resources(); anonymous windows nested two deep; refused windows must stay usable; anonymous windows also mapped into a second parent with names of its own; named windows nested two deep with equal leaf names; anonymous windows holding named windows; one resource object under one name in two anonymously mapped windows; per-call alignment on resources with the placement cursor part of 'a refusal changes nothing'; internal TypeErrors on well-formed names are violations; heavy shapes split over processes by the first part",
     "bounds": "up to 3 names (thorough 4) of length 1-2 (pairs up to length 3) over the alphabet "
               "{'a','b','ab','0',0,1}; added as resources, named windows, or resources inside an anonymous window "
               "(absorbed names); an interleaved add that fails for a non-name reason (out-of-bounds address) followed "
@@ -64,7 +64,8 @@ def configs(tier, seed):
     # "ww": a named window holding two named windows that each hold a resource called ("leaf",)
     shared = [[["a", 1], ["r", 1], ["share", 1]], [["a", 1], ["r", 2], ["share", 1]], [["a", 2], ["r", 1], ["share", 2]],
               [["r", 1], ["a", 1], ["share", 1]], [["a", 1], ["w", 1], ["share", 1]], [["aa", 1], ["r", 1], ["share", 1]]]
-    nested = [[["aw", 1], ["r", 1]], [["aw", 1], ["r", 2]], [["aw", 2], ["r", 1]], [["r", 1], ["aw", 1, 1]], [["aw", 1], ["w", 1]],
+    nested = [[["dup", 1]], [["r", 1], ["dup", 1]], [["dup", 2], ["r", 1]],
+              [["aw", 1], ["r", 1]], [["aw", 1], ["r", 2]], [["aw", 2], ["r", 1]], [["r", 1], ["aw", 1, 1]], [["aw", 1], ["w", 1]],
               [["ww", 1], ["r", 1]], [["ww", 2], ["r", 2]], [["r", 1], ["ww", 1]], [["ww", 1], ["ww", 1]]]
     for s in two + three + shared + nested:
         if sum(x for op in s for x in op[1:] if isinstance(x, int)) >= 5 and len(s) >= 3:
@@ -121,7 +122,8 @@ def harness_for(cfg):
         visible = []          # names visible in root
 
         def counts():
-            return (len(list(root.resources())), len(list(root.windows())), len(list(root.all_resources())))
+            # (align_to(0) reads the placement cursor without moving it)
+            return (len(list(root.resources())), len(list(root.windows())), len(list(root.all_resources())), root.align_to(0))
         last_name_obj = [None]
         anon = []             # (window map, its own names) for anonymous windows the root accepted
         for op in ops:
@@ -144,6 +146,35 @@ def harness_for(cfg):
                         E.prove(conf2, "a window already mapped elsewhere was refused by a second parent although its own "
                                        "names are free there")
                 E.prove(counts() == before, "mapping a window into a second parent changed the first parent")
+                continue
+            if kind == "dup":
+                # the SAME resource object, under the same name, in two maps that are both mapped anonymously
+                nm = name(lens[0])
+                shared_res = Res()
+                subs2 = []
+                for _ in range(2):
+                    sm = MemoryMap(addr_width=2, data_width=8)
+                    sm.add_resource(shared_res, name=nm, size=1)
+                    subs2.append(sm)
+                conf = b_or(*[_conflict(nm, v) for v in visible])
+                try:
+                    root.add_window(subs2[0])
+                    E.observe("ok")
+                    E.prove(b_not(conf), "a window whose (absorbed) names conflict with visible names was accepted")
+                    visible.append(nm)
+                except ValueError:
+                    E.observe("refused")
+                    E.prove(conf, "a window with legal names was refused")
+                    E.prove(counts() == before, "refusal changed the map")
+                    continue
+                before2 = counts()
+                try:
+                    root.add_window(subs2[1])
+                    E.observe("dup-ok")
+                    E.prove(False, "a second anonymous window carrying a name that is already visible was accepted (same object)")
+                except ValueError:
+                    E.observe("dup-refused")
+                    E.prove(counts() == before2, "refusal changed the map")
                 continue
             if kind == "ww":
                 outer = MemoryMap(addr_width=4, data_width=8)
@@ -188,7 +219,8 @@ def harness_for(cfg):
                     last_name_obj[0] = nm
                 conf = b_or(*[_conflict(nm, v) for v in visible])
                 try:
-                    root.add_resource(Res(), name=nm, size=1)
+                    # every other resource asks for a coarser alignment than the map's
+                    root.add_resource(Res(), name=nm, size=1, alignment=(2 if ctr[0] % 2 else None))
                     E.observe("ok")
                     E.prove(b_not(conf), "a name conflicting with a visible name was accepted")
                     visible.append(nm)
